@@ -50,6 +50,8 @@ def register(reg):
                  fresh=["Obs", "ENUCoords", "ObsTime"],
                  locals=dict(interp_points="list[Obs]", OK_="list[int]", RID_="list[int]"),
                  at={"running_id = 0": ["ghost OK_ = []", "ghost RID_ = []"],
+                     "pi = Obs(ENUCoords(X, Y, Z), ObsTime.readUnixTime(T))": [
+                         ("stamped-to-the-millisecond", "abstime(pi.timestamp) <= T and T < abstime(pi.timestamp) + 0.001")],
                      "interp_points.append(pi)": ["ghost OK_ = OK_ + [k]", "ghost RID_ = RID_ + [running_id]",
                                                   ("appended-entry", "RID_[len(OK_) - 1] == running_id and OK_[len(OK_) - 1] == k and T[running_id] == tfwd and "
                                                    "T[running_id - 1] == tbwd and REF[k] == t and interp_points[len(OK_) - 1].position.E == X and "
@@ -97,8 +99,10 @@ def register(reg):
         # the first sample is (a copy of) the first fix
         "len(interp_points) >= 1 and same(interp_points[0].position.E, X(track, 0)) and same(interp_points[0].position.N, Y(track, 0)) and "
         "same(interp_points[0].position.U, Z(track, 0)) and samefields(interp_points[0].timestamp, tstamp(track, 0))"]
+    TA = "abstime(tstamp(track, %s))"
     SORTED_S = "all(implies(a <= b, S[a] <= S[b]) for a in range(0, len(S)) for b in range(0, len(S)))"
     LAST = "len(RID_) - 1"
+    STAMP = "abstime(interp_points[J0].timestamp) <= TS_[J0] and TS_[J0] < abstime(interp_points[J0].timestamp) + 0.001"
     reg.add(Spec("tracklib.core.obs:Obs.copy", dict(self="Obs"), "Obs", trusted=True, fresh=["Obs", "ENUCoords", "ObsTime"],
                  ensures=["isnew(result) and isnew(result.position) and isnew(result.timestamp)",
                           "same(result.position.E, self.position.E) and same(result.position.N, self.position.N) and same(result.position.U, self.position.U)",
@@ -108,38 +112,62 @@ def register(reg):
                  requires=["twf(track)", n + " >= 2", "len(S) == " + n, "sini == S[0]", SORTED_S, "not isnan(ds) and ds > 0", "N >= 0",
                            "N * ds + sini <= S[len(S) - 1]",
                            "all(not isnan(X(track, r)) and not isnan(Y(track, r)) and not isnan(Z(track, r)) for r in range(0, %s))" % n,
-                           "all(wf(tstamp(track, r)) and abstime(tstamp(track, r)) >= 0 for r in range(0, %s))" % n],
+                           "all(wf(tstamp(track, r)) and abstime(tstamp(track, r)) >= 0 for r in range(0, %s))" % n,
+                           "all(implies(a <= b, %s <= %s) for a in range(0, %s) for b in range(0, %s))" % (TA % "a", TA % "b", n, n)],
                  fresh=["Obs", "ENUCoords", "ObsTime"],
-                 locals=dict(interp_points="list[Obs]", RID_="list[int]"),
-                 at={"running_id = 0": ["ghost RID_ = [0]"],
-                     "s = k * ds + sini": ["use mul_nonneg(k, ds)", "use mul_mono(k, N, ds)", "use distrib(k, 1, ds)"],
+                 locals=dict(interp_points="list[Obs]", RID_="list[int]", TS_="list[real]"),
+                 at={"running_id = 0": ["ghost RID_ = [0]", "ghost TS_ = [%s]" % (TA % "0"), "ghost LW = 0.0"],
+                     "T = wbwd * pt_bwd.timestamp.toAbsTime() + wfwd * pt_fwd.timestamp.toAbsTime()": [
+                         ("time-ends", "abstime(tstamp(track, (running_id - 1))) <= abstime(tstamp(track, running_id))"),
+                         ("time-as-a-step-from-the-segment-start", "T == abstime(tstamp(track, (running_id - 1))) + wfwd * (abstime(tstamp(track, running_id)) - abstime(tstamp(track, (running_id - 1))))",
+                          ["use distrib(1, wfwd, abstime(tstamp(track, (running_id - 1))))", "use distrib(abstime(tstamp(track, running_id)), abstime(tstamp(track, (running_id - 1))), wfwd)"]),
+                         ("time-within-the-segment", "abstime(tstamp(track, (running_id - 1))) <= T and T <= abstime(tstamp(track, running_id))",
+                          ["use mul_nonneg(wfwd, abstime(tstamp(track, running_id)) - abstime(tstamp(track, (running_id - 1))))", "use mul_nonneg(1 - wfwd, abstime(tstamp(track, running_id)) - abstime(tstamp(track, (running_id - 1))))", "use distrib(1, wfwd, abstime(tstamp(track, running_id)) - abstime(tstamp(track, (running_id - 1))))"]),
+                         ("weight-does-not-decrease-within-a-segment", "implies(k >= 2 and running_id == R0, LW <= wfwd)",
+                          ["use div_bounds(LW, 1, wfwd, sfwd - sbwd)"]),
+                         ("time-does-not-decrease", "TS_[len(TS_) - 1] <= T",
+                          ["use mul_nonneg(wfwd - LW, abstime(tstamp(track, running_id)) - abstime(tstamp(track, (running_id - 1))))", "use distrib(wfwd, LW, abstime(tstamp(track, running_id)) - abstime(tstamp(track, (running_id - 1))))"])],
+                     "s = k * ds + sini": ["use mul_nonneg(k, ds)", "use mul_mono(k, N, ds)", "use distrib(k, 1, ds)", "ghost R0 = running_id"],
                      "wfwd = (s - sbwd) / (sfwd - sbwd)": [
                          "use div_bounds(0, 1, wfwd, sfwd - sbwd)", "use div_bounds(0, 1, wbwd, sfwd - sbwd)",
                          "use distrib(wbwd, 0 - wfwd, sfwd - sbwd)", "use distrib(wbwd, wfwd, sfwd - sbwd)",
                          "use mul_cancel(sfwd - sbwd, wbwd + wfwd, 1)",
                          ("weights", "0 <= wfwd and wfwd <= 1 and 0 <= wbwd and wbwd <= 1 and wbwd + wfwd == 1")],
-                     "interp_points.append(pi)": ["ghost RID_ = RID_ + [running_id]",
+                     "interp_points.append(pi)": ["ghost RID_ = RID_ + [running_id]", "ghost TS_ = TS_ + [T]", "ghost LW = wfwd",
                                                   ("appended-entry", "RID_[%s] == running_id and S[running_id] == sfwd and S[running_id - 1] == sbwd and "
                                                    "%s == s and interp_points[%s].position.E == X and interp_points[%s].position.N == Y and "
                                                    "interp_points[%s].position.U == Z" % (LAST, AB % ("(%s)" % LAST), LAST, LAST, LAST)),
                                                   ("appended-x", comb("(%s)" % LAST, "E", "X")), ("appended-y", comb("(%s)" % LAST, "N", "Y")),
-                                                  ("appended-z", comb("(%s)" % LAST, "U", "Z"))]},
+                                                  ("appended-z", comb("(%s)" % LAST, "U", "Z")),
+                                                  ]},
                  loops={"2": LoopSpec(inv=SP + [
-                            "len(interp_points) == k",
+                            "len(interp_points) == k", "len(TS_) == k", "implies(k >= 2, RID_[k - 1] == running_id and running_id >= 1)",
+                            "implies(k == 1, running_id == 0)",
+                            "TS_[k - 1] <= %s" % (TA % "running_id"),
+                            "implies(k >= 2, TS_[k - 1] == %s + LW * (%s - %s) and LW * (S[running_id] - S[running_id - 1]) == %s - S[running_id - 1])"
+                            % (TA % "(running_id - 1)", TA % "running_id", TA % "(running_id - 1)", AB % "(k - 1)"),
+                            "TS_[0] == %s" % (TA % "0"),
+                            "all(implies(j + 1 < k, TS_[j] <= TS_[j + 1]) for j in range(0, k))",
+                            "implies(1 <= J0 and J0 < k, %s)" % STAMP,
                             "0 <= running_id and running_id < " + n,
                             "running_id == 0 or S[running_id - 1] < %s" % (AB % "k"),
                             "unchanged_old_class('Obs') and unchanged_old_class('ENUCoords') and unchanged_old_class('ObsTime')"]),
-                        "2.1": LoopSpec(inv=["0 <= running_id and running_id < " + n, "running_id == 0 or S[running_id - 1] < s"],
+                        "2.1": LoopSpec(inv=["0 <= running_id and running_id < " + n, "running_id == 0 or S[running_id - 1] < s", "R0 <= running_id"],
                                         decreases=n + " - running_id")},
                  ensures=[("first-fix-then-one-sample-per-step", "len(interp_points) == N + 1 and " + SP[8]),
                           ("each-sample-on-a-segment-at-its-abscissa", SP[2]),
                           ("weights-between-0-and-1", SP[3]),
                           ("on-the-polyline-x", SP[4]), ("on-the-polyline-y", SP[5]), ("interpolated-height", SP[6]),
-                          ("interpolated-time-to-the-millisecond", SP[7])]))
+                          ("interpolated-time-to-the-millisecond", SP[7])],
+                 ensures_local=[("interpolated-times-never-decrease", "len(TS_) == N + 1 and all(implies(j + 1 < len(TS_), TS_[j] <= TS_[j + 1]) for j in range(0, len(TS_)))"),
+                                ("each-sample-is-stamped-with-its-time-to-the-millisecond", "TS_[0] == %s and implies(1 <= J0 and J0 < len(TS_), %s)" % (TA % "0", STAMP))]))
 
 
 FUNCTIONS = [Q + "__resampleTemporal", Q + "__resampleSpatial"]
 USES_LIB = True
 ASSUMPTIONS = ["__resampleTemporal: the loop is under contract (region); building T, prepareTimeSampling and setObsList are bounded only",
                "timestamps strictly increasing, requested instants non-decreasing and >= 0 (epoch seconds)",
-               "spatial resampling (__resampleSpatial) and Track.resample's front end are bounded only"]
+               "__resampleSpatial: the sampling loop is under contract (region); inputs of the region: S non-decreasing with S[0] = sini, ds > 0, "
+               "N >= 0 with sini + N ds <= S[last] (real arithmetic: the code's while-guard against a rounding overshoot is never taken), "
+               "well-formed input timestamps with non-negative epoch seconds; Obs.copy is a trusted deepcopy contract",
+               "Track.resample's front end and the monotonicity of the produced timestamps in the spatial mode are bounded only"]
